@@ -164,7 +164,7 @@ type Options struct {
 
 func ch(label string, n int) int { return simrt.Choice(label, n) }
 
-var dirs = []string{"", "a", "a/b", "c", "c/d"}
+var dirs = []string{"", "a", "a/b", "c", "c/d", "ab"}
 var bases = []string{"root", "alpha", "beta", "gamma", "delta", "shared"}
 
 // goBases are file names that collide with packages the generated code imports.
@@ -564,6 +564,9 @@ func (p *Program) genDef(f *File, o Options) {
 		val := 0
 		for i := 0; i < n; i++ {
 			it := EnumItem{Name: fmt.Sprintf("%s_I%d", strings.ToUpper(d.Name), i)}
+			if o.SameNames && simrt.Flip("enum.shared-item-name", 0.15) {
+				it.Name = fmt.Sprintf("SHARED_I%d", i) // the same item name may appear in several enums
+			}
 			if simrt.Flip("enum.explicit", 0.3) {
 				val += 1 + ch("enum.gap", 5)
 				it.Expl = true
